@@ -1563,3 +1563,43 @@ def c07m(F, R):
             R.ok(f"macro-close|{d}", detail=f"{d} -> {v}, on which the macro-skipping loop stops", where=loc(stops[0][1]))
         else:
             R.bad(f"macro-close|{d}", f"the macro-skipping loop stops on {stop_vs} only, and `{d}` (how RARS closes a macro) {'maps to ' + v if v else 'is not a known directive'}: after `.macro .. {d}` every following line of the file is discarded without a diagnostic", loc(stops[0][1]))
+
+
+@rule("C07", "C07.n.lists-that-cross-lines-take-numbers-only", floor=1)
+def c07n(F, R):
+    """a decoder loop that steps over newline tokens (a value list continued on the following lines) may absorb nothing but numbers: a token that could begin a statement of its own - a name, a register, a string - must end the list, or a following line made of names (`halt now`, a misspelt mnemonic) disappears into the list without a diagnostic"""
+    p = F.method(PNODE, "try_from", trait_ref=r"TryFrom<&mut core::iter::adapters::peekable::Peekable")
+    f = F.fn(p)
+    body = f["hir"]["value"]
+    n = 0
+    for lp in walk(body, pats=False):
+        if lp.get("k") != "Loop":
+            continue
+        # branches of the loop body: `if let Newline = tok.token_type() { get_any } else if <cond> { get_any; .. } else { break }`
+        ifs = [x for x in walk(lp["body"], pats=False) if x.get("k") == "If"]
+        nl = [x for x in ifs if peel_cond(x["cond"]).get("k") == "LetExpr" and any(v and v.endswith("TokenType::Newline") for k_, v in pat_variants(peel_cond(x["cond"])["pat"]) if k_ == "path")
+              and any(m.get("k") == "MethodCall" and m["name"] == "get_any" for m in walk(x["then"], pats=False))]
+        if not nl:
+            continue
+        n += 1
+        # walk the else-if chain starting at the newline test
+        x = nl[0].get("else")
+        i = 0
+        while x is not None:
+            x = peel(x)
+            while x.get("k") == "Block" and not x.get("stmts") and x.get("expr") is not None:
+                x = peel(x["expr"])
+            if x.get("k") != "If":
+                break
+            i += 1
+            consumes = any(m.get("k") == "MethodCall" and m["name"] in ("get_any", "get_reg", "get_label", "get_string", "get_imm", "get_csrimm") for m in walk(x["then"], pats=False))
+            c = peel_cond(x["cond"])
+            kinds = sorted({m["name"] for m in walk(c, pats=False) if m.get("k") == "MethodCall" and (m["name"].startswith("as_") or m["name"].startswith("is_"))} - {"is_ok", "is_err", "is_some", "is_none"})
+            if consumes:
+                if kinds == ["as_imm"]:
+                    R.ok(f"loop#{n}|branch#{i}", detail="absorbs a token only if it is a number", where=loc(x))
+                else:
+                    R.bad(f"loop#{n}|branch#{i}|{'+'.join(kinds) or 'other'}", f"a list that continues over newlines absorbs a token under `{ekey(c)[:70]}` ({kinds or 'no kind test'}): a following line that consists of such tokens vanishes into the list - no node of its own, no parse error", loc(x))
+            x = x.get("else")
+    if n == 0:
+        R.bad("shape", "UNEXTRACTABLE: no decoder loop that steps over newline tokens (the data value list) found", f["sp"])
